@@ -216,6 +216,16 @@ pub fn run(a: &Args) {
             crate::c01::check_image(&mut o, &im, &[rng.range(1, 3000) as usize], false);
         }
     }
+    // the FIRST row of a frame is reconstructed without a row above - also the first row of frame k+1 when frame k's data sequence was flushed
+    // while its last rows were still buffered (frames a little above 32 / 64 / 128 KiB of compressible data; frame f uses filter (f+1) % 5
+    // on every row, so Up / Average / Paeth first rows follow a frame whose last row is not zero)
+    for (w, producer) in [(15u32, 1u8), (63, 0), (255, 2)] {
+        for h in crate::gen::heights_just_above_buffer_sizes(w as usize + 1, 2).into_iter().take(if a.tier == "thorough" { 9 } else { 5 }) {
+            let b = crate::gen::held_back_tail_file(w, h, 4, producer, &[], &[]);
+            o.count("first-rows-after-an-early-flushed-frame");
+            crate::c09::check_apng(&mut o, &b, &mut rng);
+        }
+    }
     // filtering in the context of the encoder: the filter setting changed between rows through the stream writer - each row must be filtered
     // against the row above it and the stream must reconstruct to the rows given
     crate::c03::filter_switch_cases(&mut o, &mut rng, a.tier == "thorough");
